@@ -19,13 +19,18 @@ STD_METHODS = [
     {'name': 'stor', 'sig': [], 'ctx': ('none',), 'body': ('rpc', -32050, 'storage offline', '<unset>', 'ServerError')},
     # a class-based view whose constructor raises: the request fails before the method is bound (-32603)
     {'name': 'vbad', 'sig': [('a', 'PK', True)], 'ctx': ('view', False, 'raise'), 'body': ('bindfail',)},
+    # ... with exceptions of the types the dispatcher itself catches elsewhere (TypeError: binding; KeyError: lookup)
+    {'name': 'vbadt', 'sig': [('a', 'PK', True)], 'ctx': ('view', False, 'raise'), 'body': ('bindfail', 'type')},
+    {'name': 'vbadk', 'sig': [], 'ctx': ('view', False, 'raise'), 'body': ('bindfail', 'key')},
+    # a view WITH a context whose handler has a parameter of its own named like the context (the context goes to the constructor)
+    {'name': 'vself', 'sig': [('ctx', 'PK', False), ('a', 'PK', True)], 'ctx': ('view', True), 'body': ('env',)},
 ]
 STD_CFG = {'methods': STD_METHODS, 'mws': [], 'ehs': [], 'max_batch': None}
 
 J = [A, '2.0', '1.0', 2.0, None]
 I = [A, None, 0, 1, -1, 2 ** 64, '', 'a', '1', True, 1.5, [], {}]
-M = [A, 'one', 'two', 'boom', 'perr', 'perr2', 'nul', 'ctxm', 'ctxplain', 'vbad', 'stor', 'nosuch', '', 1, None]
-P = [A, [], [1], [1, 2], {}, {'a': 1}, {'a': 1, 'b': 2}, {'b': 1}, None, 1, 'x', [None], [[1, {'k': 'v'}]], [1, 2, 3], {'c': 9}]
+M = [A, 'one', 'two', 'boom', 'perr', 'perr2', 'nul', 'ctxm', 'ctxplain', 'vbad', 'vbadt', 'vbadk', 'vself', 'stor', 'nosuch', '', 1, None]
+P = [A, [], [1], [1, 2], {}, {'a': 1}, {'a': 1, 'b': 2}, {'b': 1}, None, 1, 'x', [None], [[1, {'k': 'v'}]], [1, 2, 3], {'c': 9}, {'ctx': 4}]
 
 
 def obj(j, i, m, p):
@@ -45,8 +50,8 @@ def valid_element(rnd, notif_p=0.25, bad_p=0.08):
     if r < bad_p:
         return rnd.choice([1, None, 'x', [], {}, True, obj(*[rnd.choice(X) for X in (J, I, M, P)])])
     i = A if rnd.random() < notif_p else rnd.choice([None, 0, 1, 2, 3, -1, '1', 'a', '', 2 ** 64])
-    return obj('2.0', i, rnd.choice(['one', 'one', 'two', 'boom', 'perr', 'perr2', 'nul', 'ctxm', 'ctxplain', 'ctxm', 'nosuch', 'vbad', 'stor', 'boom']),
-               rnd.choice([A, [], [1], {'a': 2}, [1, 2], {'b': 1}, {'a': 1, 'b': None}]))
+    return obj('2.0', i, rnd.choice(['one', 'one', 'two', 'boom', 'perr', 'perr2', 'nul', 'ctxm', 'ctxplain', 'ctxm', 'nosuch', 'vbad', 'vbadt', 'vbadk', 'vself', 'vself', 'stor', 'boom']),
+               rnd.choice([A, [], [1], {'a': 2}, [1, 2], {'b': 1}, {'a': 1, 'b': None}, {'ctx': 3}, {'ctx': 3, 'a': 1}]))
 
 
 def nested(depth, leaf=1):
@@ -95,6 +100,7 @@ def special_batches():
     out.append([el('ctxm', 1, [7]), el('ctxplain', 2, [5, 6]), el('ctxm', 3, {'a': 1}), el('ctxm', 4, {'c': 9})])
     out.append([el('boom', 1), el('stor', 2), el('stor'), el('perr', 3), el('perr2', 4)])
     out.append([el('stor', 1), el('nul', 2), el('boom', 3), el('vbad', 4)])
+    out.append([el('vbadt', 1, [1]), el('vbadk', 2), el('vbadt'), el('vself', 3, {'a': 1}), el('vself', 4, [7]), el('vself', 5, {'ctx': 1, 'a': 2})])
     return [json.dumps(b) for b in out]
 
 
